@@ -593,4 +593,19 @@ theorem meanSinXi_confluent' (P : Params ℝ) (x : ℝ) (hx : |x| < π / 2) (bx 
     unfold betaVia
     field_simp
 
+/-! ### the sphere as an instance (for the non-vacuity examples of `Props/C09.lean`) -/
+
+/-- all coefficient lists empty, unit radii -/
+def sphereParams : Params ℝ := ⟨[], [], [], [], [], [], [], [], 1, 1⟩
+theorem sphere_clenshaw (s c : ℝ) : clenshaw true s c [] = 0 := by simp [clenshaw, clen, lit0]
+theorem sphere_serA (x : ℝ) : serA [] x = x := by unfold serA; rw [sphere_clenshaw]; ring
+
+theorem sphere_dmudpsi (x : ℝ) (hx : |x| < π / 2) : dmudpsiS sphereParams (sin x, cos x) (sin x, cos x) = cos x := by
+  obtain ⟨m', hd, he⟩ := dmudpsiS_confluent sphereParams x hx
+  have hid : HasDerivAt (serA ([] : List ℝ)) 1 x := by
+    have : serA ([] : List ℝ) = id := by funext y; exact sphere_serA y
+    rw [this]; exact hasDerivAt_id x
+  have : m' = 1 := hd.unique hid
+  rw [he, this, one_mul]
+
 end GeoVerif.Proofs.RhumbSeries
